@@ -192,6 +192,8 @@ fn main() {
     let sh = a.num("sh", 1) as u16;
     let end_ms = a.num("end", 3000) as i64;
     let open_delay = a.num("open-delay", 0) as u64;
+    // a connection timeout (ms; 0 = none) governs the opening handshake only
+    let conn_timeout = a.num("ct", 0) as u64;
     let sched_v: Value = serde_json::from_str(&a.str("sched", "[]")).expect("--sched is JSON");
     let sched: Vec<(i64, String)> = sched_v
         .as_array()
@@ -236,7 +238,8 @@ fn main() {
     let bcfg = cfg.clone();
     let (r, net) = session::open_with(
         cfg,
-        ConnectionOptions::default().heartbeat(ch),
+        ConnectionOptions::default().heartbeat(ch).connection_timeout(
+            if conn_timeout > 0 { Some(std::time::Duration::from_millis(conn_timeout)) } else { None }),
         ConnectionTuning::default(),
         None,
         |net| {
